@@ -1974,32 +1974,30 @@ def _prf_shapes(part, thresha, np):
 # jobs
 # ------------------------------------------------------------------------------------------------------------------
 
-SP_SPLIT = {  # group sets and number of parts per dtype (balanced by measured cost)
-    'quick': [(('E',), 3), (('P',), 3), (('U',), 1), (('M',), 1), (('R',), 3), (('W', 'S', 'G', 'IO'), 1)],
-    'thorough': [(('E',), 8), (('P',), 8), (('U',), 3), (('M',), 3), (('R',), 8), (('W', 'S', 'G', 'IO'), 1)],
+SP_SPLIT = {  # (group set, number of parts) per dtype class, balanced by measured cost
+    'num': [(('E',), 3), (('P',), 3), (('U',), 1), (('M',), 1), (('R',), 3), (('W', 'S', 'G', 'IO'), 1)],
+    'fld': [(('E', 'P'), 1), (('U', 'M'), 1), (('R',), 1), (('W', 'S', 'G', 'IO'), 1)],
 }
 
 
 def jobs(tier, seed):
     out = []
     for dtn in DTYPES:
-        for groups, parts in SP_SPLIT[tier]:
-            if dtn.startswith('gf'):
-                parts = max(1, parts // 3)
+        for groups, parts in SP_SPLIT['fld' if dtn.startswith('gf') else 'num']:
             for p in range(parts):
                 out.append(dict(engine='sp', dt=dtn, k=K_SP, groups=list(groups), part=p, parts=parts, tier=tier, seed=seed))
         out.append(dict(engine='sp', dt=dtn, k=K_SP, prss=True, groups=['E', 'P', 'U', 'M', 'R', 'W', 'IO'], part=0, parts=1, tier=tier, seed=seed))
-        if tier == 'thorough':
+        if tier == 'thorough' and not dtn.startswith('gf'):
             out.append(dict(engine='sp', dt=dtn, k=6, groups=['E', 'U', 'M', 'R'], part=0, parts=1, tier='quick', seed=seed, k6=True))
         for no_prss in (False, True):
-            parts = 2 if tier == 'quick' else 4
+            parts = 2 if tier == 'thorough' and not dtn.startswith('gf') else 1
             for p in range(parts):
                 out.append(dict(engine='mp', dt=dtn, no_prss=no_prss, part=p, parts=parts, tier=tier, seed=seed))
     out.append(dict(engine='iszero', tier=tier, seed=seed))
-    for f in FFA_FIELDS:
-        out.append(dict(engine='ffa', fields=[f], tier=tier, seed=seed))
-    for f in ('GF(5)', 'GF(7)', 'GF(4)', 'GF(8)'):
-        out.append(dict(engine='thresha', fields=[f], tier=tier, seed=seed))
+    out.append(dict(engine='ffa', fields=FFA_FIELDS[:3], tier=tier, seed=seed))
+    out.append(dict(engine='ffa', fields=FFA_FIELDS[3:], tier=tier, seed=seed))
+    out.append(dict(engine='thresha', fields=['GF(5)', 'GF(4)'], tier=tier, seed=seed))
+    out.append(dict(engine='thresha', fields=['GF(7)', 'GF(8)'], tier=tier, seed=seed))
     order = {'mp': 0, 'sp': 1}
     out.sort(key=lambda j: (order.get(j['engine'], 2), -j.get('parts', 1)))
     return out
